@@ -143,7 +143,9 @@ func (x *Exec) pos(p token.Pos) string {
 	return fmt.Sprintf("%s:%d", relPath(ps.Filename), ps.Line)
 }
 
-func relPath(f string) string { return strings.TrimPrefix(f, "/repo/") }
+var repoRoot = "/repo"
+
+func relPath(f string) string { return strings.TrimPrefix(f, repoRoot+"/") }
 
 func (x *Exec) assume(st *State, fact *Term) {
 	f := x.c.Implies(st.reach, fact)
